@@ -386,3 +386,42 @@ func VerifHarness_C07_start_sequence() {
 		vReach("log-replayed")
 	}
 }
+
+// W6: replay re-handles the logged inputs. The log of the current height holds its marker, the
+// NewHeight timeout and the propose timeout; the crash came right after the propose timeout was
+// logged. The real catchupReplay finds the marker, re-handles both timeouts (the node moves to
+// Prevote and signs its prevote), logs the steps it takes, leaves replay mode, and the prevote it
+// produced is STILL QUEUED for the consensus routine — it is the only copy (it had not been logged).
+// Under the engine the file reader and the JSON decoder are seams (scripted lines, bound objects).
+func VerifHarness_C07_catchup_replay() {
+	w := vC07New(false)
+	defer w.cleanup()
+	cs := w.cs
+	cs.BaseService = *vNewBase()
+	cs.BaseService.Start()
+	tk := &vStartTicker{ch: make(chan timeoutInfo, 4), started: 1}
+	cs.timeoutTicker = tk
+	cs.Step = RoundStepNewHeight
+	t1 := timeoutInfo{Duration: 1, Height: cs.Height, Round: 0, Step: RoundStepNewHeight}
+	t2 := timeoutInfo{Duration: 1, Height: cs.Height, Round: 0, Step: RoundStepPropose}
+	if vSymbolic() {
+		l1, l2 := "record-1", "record-2"
+		vJSONBind([]byte(l1), &TimedWALMessage{Msg: t1})
+		vJSONBind([]byte(l2), &TimedWALMessage{Msg: t2})
+		vSetStub("go-autofile.Group).Search", (*auto.GroupReader)(nil), false, nil, &auto.GroupReader{}, true, nil)
+		vSetStub("go-autofile.GroupReader).ReadLine", "#HEIGHT: 5", nil, l1, nil, l2, nil, "", io.EOF)
+	} else {
+		cs.wal.Save(cs.RoundStateEvent()) // marker + NewHeight step
+		cs.wal.Save(t1)
+		cs.wal.Save(t2)
+	}
+	before := len(w.walLines())
+	err := cs.catchupReplay(cs.Height) // real
+	vReach("replayed")
+	vAssert(err == nil, "W6-replay-succeeds")
+	vAssert(!cs.replayMode, "W6-replay-mode-left")
+	vAssert(cs.Height == 5 && cs.Round == 0 && cs.Step == RoundStepPrevote, "W6-node-is-where-the-last-logged-input-left-it")
+	vAssert(len(w.signer.votes) == 1 && w.signer.votes[0].Type == types.VoteTypePrevote, "W6-the-prevote-of-the-replayed-timeout-is-signed")
+	vAssert(len(cs.internalMsgQueue) == 1, "W6-own-vote-produced-by-replay-is-still-queued-for-handling")
+	vAssert(len(w.walLines())-before >= 2, "W6-steps-taken-during-replay-are-logged")
+}
